@@ -173,6 +173,12 @@ def run(ctx):
             d = {"id": "identical-%s-%s" % (g1, g2), "plugins": [{"name": "p1", "hs": "ok", "gen": g1, "bye": "ok"}, {"name": "p2", "hs": "ok", "gen": g2, "bye": "ok"}]}
             cases.append(expand(d, "inproc", rng))
             cases.append(expand(d, "cli", rng))
+        # a handshake that is well-formed but names another API version, newer or older
+        for f in ("wrongversion", "olderversion", "zeroversion", "negversion"):
+            for others in ([], [{"name": "p2", "hs": "ok", "gen": "ok", "bye": "ok"}]):
+                d = {"id": "apiversion-%s-%d" % (f, len(others)), "plugins": [{"name": "p1", "hs": f, "gen": "ok", "bye": "ok"}] + others}
+                cases.append(expand(d, "inproc", rng))
+                cases.append(expand(d, "cli", rng))
         # frames under arbitrary segmentation: truncation at every byte offset, 1-byte writes, oversize prefix
         offs = range(0, 70, 7) if ctx.quick() else range(0, 120)
         for k in offs:
